@@ -7,7 +7,7 @@ From BrcGen Require Import Consts.
 
 Notation FN := MAX_FUTURE_TRANSACTION_NONCES.
 Notation FB := MAX_FUTURE_TRANSACTION_BLOCKS.
-Notation step := (e_step W FN FB).
+Notation step := (e_step W FN FB INDEXER_ADDRESS).
 
 Theorem C08_pool_bounds_pinned : FN = 10 /\ FB = 10.
 Proof. split; reflexivity. Qed.
@@ -20,13 +20,13 @@ Theorem C08_transact_receipts_match_appended :
     g_wait (fst (step g (CRaw d idx ts h vs))) = g_wait g + k /\
     g_blocks (fst (step g (CRaw d idx ts h vs))) = g_blocks g /\
     g_h (fst (step g (CRaw d idx ts h vs))) = g_h g.
-Proof. exact (transact_receipts_match W FN FB). Qed.
+Proof. exact (transact_receipts_match W FN FB INDEXER_ADDRESS). Qed.
 Print Assumptions C08_transact_receipts_match_appended.
 
 (* A transact is never rejected after it has started executing (the drain cannot fail). *)
 Theorem C08_transact_all_or_nothing :
   forall g d idx ts h vs, snd (step g (CRaw d idx ts h vs)) = ORejected -> fst (step g (CRaw d idx ts h vs)) = g.
-Proof. exact (fun g d idx ts h vs => reject_no_effect W FN FB g (CRaw d idx ts h vs)). Qed.
+Proof. exact (fun g d idx ts h vs => reject_no_effect W FN FB INDEXER_ADDRESS g (CRaw d idx ts h vs)). Qed.
 
 (* Stale, far-future and wrong-chain transactions are ignored, undecodable ones rejected,
    all without effect. *)
@@ -36,7 +36,7 @@ Theorem C08_ignored_no_effect :
     step g (CRaw DWrongChain idx ts h vs) = (g, OOk 0) /\
     (forall a n, (n < nonce_of g a \/ (nonce_of g a < n /\ nonce_of g a + FN <= n)) ->
                  step g (CRaw (DSigned a n) idx ts h vs) = (g, OOk 0)).
-Proof. exact (transact_ignored_no_effect W FN FB). Qed.
+Proof. exact (transact_ignored_no_effect W FN FB INDEXER_ADDRESS). Qed.
 Print Assumptions C08_ignored_no_effect.
 
 (* A transaction ahead of the account by fewer than FN nonces waits in the pool. *)
@@ -46,7 +46,7 @@ Theorem C08_future_nonce_parked :
     snd (step g (CRaw (DSigned a n) idx ts h vs)) = OOk 0 /\
     g_wait (fst (step g (CRaw (DSigned a n) idx ts h vs))) = g_wait g /\
     pool_find (fst (step g (CRaw (DSigned a n) idx ts h vs))) a n = Some (next_h g).
-Proof. exact (transact_parks W FN FB). Qed.
+Proof. exact (transact_parks W FN FB INDEXER_ADDRESS). Qed.
 Print Assumptions C08_future_nonce_parked.
 
 (* Non-vacuity: nonces 2 and 1 are parked, nonce 0 arrives: all three execute in one call at
